@@ -91,6 +91,27 @@ class _EscapeRecorder(object):
             raise
 
 
+HTTP_RAISED = {'n': 0, 'last': None}   # HTTPError raised *out of* the handler
+
+
+def _recording_handler_class():
+    import webob.exc
+    from placement import handler as phandler
+
+    class RecordingPlacementHandler(phandler.PlacementHandler):
+        """The real PlacementHandler; notes when a webob HTTPError leaves it
+        as an exception (instead of a returned response)."""
+
+        def __call__(self, environ, start_response):
+            try:
+                return super().__call__(environ, start_response)
+            except webob.exc.HTTPError as exc:
+                HTTP_RAISED['n'] += 1
+                HTTP_RAISED['last'] = exc.code
+                raise
+    return RecordingPlacementHandler
+
+
 class RecordingFaultWrapper(fault_wrap.FaultWrapper):
     """O5: the real FaultWrapper around a recorder of what reached it."""
 
@@ -121,12 +142,16 @@ class App(object):
         if policy_rules is not None:
             self._write_policy(policy_rules)
         if record_faults:
+            from placement import handler as phandler
             fault_wrap_orig = fault_wrap.FaultWrapper
+            handler_orig = phandler.PlacementHandler
             fault_wrap.FaultWrapper = RecordingFaultWrapper
+            phandler.PlacementHandler = _recording_handler_class()
             try:
                 self.wsgi = deploy.loadapp(self.conf)
             finally:
                 fault_wrap.FaultWrapper = fault_wrap_orig
+                phandler.PlacementHandler = handler_orig
         else:
             self.wsgi = deploy.loadapp(self.conf)
 
